@@ -24,6 +24,7 @@
 #include <gmssl/sm4.h>
 #include <gmssl/pem.h>
 #include <gmssl/tls.h>
+#include <gmssl/verif.h>
 
 
 void tls_uint8_to_bytes(uint8_t a, uint8_t **out, size_t *outlen)
@@ -357,7 +358,12 @@ int tls_cbc_decrypt(const SM3_HMAC_CTX *inited_hmac_ctx, const SM4_KEY *dec_key,
 		error_print();
 		return -1;
 	}
-	for (i = 0; i < padding_len; i++) {
+	for (i = 0; i < padding_len; i++)
+	VERIF_LOOP_ASSIGNS(i)
+	VERIF_LOOP_INVARIANT(0 <= i && i <= padding_len)
+	VERIF_LOOP_INVARIANT(verif_gk >= (size_t)i || padding[verif_gk] == padding_len)
+	VERIF_LOOP_DECREASES(padding_len - i)
+	{
 		if (padding[i] != padding_len) {
 			error_puts("tls ciphertext cbc-padding check failure");
 			return -1;
